@@ -627,6 +627,15 @@ func (f *Frame) applyContract(con *Contract, key string, sig *types.Signature, a
 		t := env2.evalBool(e.E)
 		vc.assume(implies(f.curReach, t))
 	}
+	for _, e := range con.ObjInv {
+		var soft []string
+		vc.softErr = &soft
+		t := env2.evalBool(e.E)
+		vc.softErr = nil
+		if len(soft) == 0 {
+			vc.assume(implies(f.curReach, t))
+		}
+	}
 	return packResults(results, resT)
 }
 
@@ -639,10 +648,11 @@ func shortKey(k string) string {
 
 // siteAsserts: `assert before call <callee>` clauses of the function under verification.
 func (f *Frame) siteAsserts(key string, ord int, args []EV, sig *types.Signature, c *ssa.CallCommon, pos token.Pos) {
-	if f.con == nil || f.depth != 0 {
+	top := f.vc.topFrame
+	if top == nil || top.con == nil || f.vc.specMode {
 		return
 	}
-	for _, sa := range f.con.Sites {
+	for _, sa := range top.con.Sites {
 		if !strings.Contains(key, sa.Callee) {
 			continue
 		}
@@ -650,7 +660,8 @@ func (f *Frame) siteAsserts(key string, ord int, args []EV, sig *types.Signature
 			continue
 		}
 		sa.Used = true
-		env := f.ownEnv(f.cur, f.entry, nil, nil)
+		env := top.ownEnv(f.cur, top.entry, nil, nil)
+		env.f = f
 		// call arguments are visible as $0, $1, ... and by the callee's parameter names prefixed with '$'
 		for i, a := range args {
 			env.names[fmt.Sprintf("$%d", i)] = a
